@@ -251,6 +251,147 @@ func TestCommandPairs(t *testing.T) {
 	ev.Label("pairs-complete")
 }
 
+// TestMethodPairs: every ordered pair of the session's convenience methods
+// (which build their request themselves) back-to-back on one session, the first
+// one answered normally, refused by the BMC, refused locally or lost. The second
+// call must return what it returns as the first call on a fresh session against
+// a BMC in the same state, and the BMC must be asked the same thing.
+func TestMethodPairs(t *testing.T) {
+	type method struct {
+		name string
+		call func(ctx context.Context, s *bmc.V2Session) (string, error)
+	}
+	var methods []method
+	for lvl := 0; lvl <= 5; lvl++ {
+		lvl := lvl
+		methods = append(methods, method{fmt.Sprintf("SetSessionPrivilegeLevel(%d)", lvl), func(ctx context.Context, s *bmc.V2Session) (string, error) {
+			l, err := s.SetSessionPrivilegeLevel(ctx, ipmi.PrivilegeLevel(lvl))
+			return fmt.Sprint(l), err
+		}})
+	}
+	methods = append(methods,
+		method{"GetSessionPrivilegeLevel()", func(ctx context.Context, s *bmc.V2Session) (string, error) {
+			l, err := s.GetSessionPrivilegeLevel(ctx)
+			return fmt.Sprint(l), err
+		}},
+		method{"ChassisControl(0)", func(ctx context.Context, s *bmc.V2Session) (string, error) { return "", s.ChassisControl(ctx, 0) }},
+		method{"ChassisControl(3)", func(ctx context.Context, s *bmc.V2Session) (string, error) { return "", s.ChassisControl(ctx, 3) }},
+		method{"GetSensorReading(4)", func(ctx context.Context, s *bmc.V2Session) (string, error) {
+			r, err := s.GetSensorReading(ctx, 4)
+			return dumpOrNil(r, err), err
+		}},
+		method{"GetSensorReading(9)", func(ctx context.Context, s *bmc.V2Session) (string, error) {
+			r, err := s.GetSensorReading(ctx, 9)
+			return dumpOrNil(r, err), err
+		}},
+		method{"GetDeviceID()", func(ctx context.Context, s *bmc.V2Session) (string, error) {
+			r, err := s.GetDeviceID(ctx)
+			return dumpOrNil(r, err), err
+		}},
+		method{"GetChassisStatus()", func(ctx context.Context, s *bmc.V2Session) (string, error) {
+			r, err := s.GetChassisStatus(ctx)
+			return dumpOrNil(r, err), err
+		}},
+		method{"GetSystemGUID()", func(ctx context.Context, s *bmc.V2Session) (string, error) {
+			g, err := s.GetSystemGUID(ctx)
+			return fmt.Sprintf("%x", g), err
+		}},
+		method{"GetSDRRepositoryInfo()", func(ctx context.Context, s *bmc.V2Session) (string, error) {
+			r, err := s.GetSDRRepositoryInfo(ctx)
+			return dumpOrNil(r, err), err
+		}},
+		method{"ReserveSDRRepository()", func(ctx context.Context, s *bmc.V2Session) (string, error) {
+			r, err := s.ReserveSDRRepository(ctx)
+			return dumpOrNil(r, err), err
+		}},
+		method{"GetSessionInfo(current)", func(ctx context.Context, s *bmc.V2Session) (string, error) {
+			r, err := s.GetSessionInfo(ctx, &ipmi.GetSessionInfoReq{})
+			return dumpOrNil(r, err), err
+		}},
+		method{"GetChannelAuthenticationCapabilities(present, admin)", func(ctx context.Context, s *bmc.V2Session) (string, error) {
+			r, err := s.GetChannelAuthenticationCapabilities(ctx, &ipmi.GetChannelAuthenticationCapabilitiesReq{ExtendedData: true, Channel: ipmi.ChannelPresentInterface, MaxPrivilegeLevel: ipmi.PrivilegeLevelAdministrator})
+			return dumpOrNil(r, err), err
+		}},
+	)
+	suites := hx.Suites12()
+	firstOutcomes := [][]hx.Outcome{{hx.Final}, {hx.FinalCC}, {hx.Lost}, {hx.Busy, hx.Final}}
+	n := 0
+	for ai, ma := range methods {
+		for bi, mb := range methods {
+			for oi, script := range firstOutcomes {
+				n++
+				c := hx.Creds{User: "admin", Password: []byte("pw"), Priv: 4, Suite: suites[(n+int(ev.Seed))%len(suites)], Seed: uint64(ev.Seed)*131 + uint64(n)}
+				limit := byte(0)
+				if (ai+bi+oi)%2 == 0 {
+					limit = 3 // the user may go up to OPERATOR: higher requests are refused
+				}
+				var state simbmc.Data
+				run := func(withA bool) (string, error) {
+					w := hx.NewWorldFor(c, true)
+					w.BMC.Data.Sensors[4] = ref.SensorReading{Reading: 0x5a, Scanning: true}
+					w.BMC.Data.Sensors[9] = ref.SensorReading{Reading: 0x11, Scanning: true, Unavailable: true}
+					w.BMC.Data.PrivLimit = limit
+					s, err := w.T.NewV2Session(context.Background(), c.Opts())
+					if err != nil {
+						return "", fmt.Errorf("harness: %v", err)
+					}
+					if withA {
+						sc := &hx.Scripter{Script: script, FinalCode: 0xD5}
+						sc.Install(w.BMC)
+						ctx, cancel := w.Ctx(len(script))
+						ma.call(ctx, s)
+						cancel()
+						w.BMC.Intercept = nil
+						w.Net.Drain()
+						state = w.BMC.Data
+					} else {
+						w.BMC.Data = state
+					}
+					before := len(w.BMC.Log)
+					ctx, cancel := w.Ctx(2)
+					res, err := mb.call(ctx, s)
+					cancel()
+					asked := "nothing"
+					if len(w.BMC.Log) > before {
+						if m := w.BMC.Log[before].Msg; m != nil {
+							asked = fmt.Sprintf("NetFn %#x cmd %#x data %x", m.NetFn, m.Cmd, m.Data)
+						}
+					}
+					if err != nil {
+						res = ""
+					}
+					return fmt.Sprintf("err=%v result=%s; BMC was asked: %s (%d datagrams)", err != nil, res, asked, len(w.BMC.Log)-before), nil
+				}
+				used, err := run(true)
+				if err == nil {
+					var fresh string
+					fresh, err = run(false)
+					if err == nil && used != fresh {
+						err = fmt.Errorf("%s after %s (answered %s) differs from the same call on a fresh session:\n after: %s\n fresh: %s", mb.name, ma.name, hx.ScriptString(script), used, fresh)
+					}
+				}
+				ev.Eval()
+				if err != nil {
+					ev.Violation("TestMethodPairs", map[string]any{"first": ma.name, "firstAnswered": hx.ScriptString(script), "second": mb.name, "privilegeLimit": limit, "suite": c.Suite.String()}, err.Error())
+					t.Fatalf("%v", err)
+				}
+				ev.NonTrivial(fmt.Sprintf("mpair|%s|%s|%d", ma.name, mb.name, oi))
+				if n%97 == 0 {
+					ev.Sample(map[string]any{"pair": ma.name + " then " + mb.name, "firstAnswered": hx.ScriptString(script), "second": used})
+				}
+			}
+		}
+	}
+	ev.Label("method-pairs-complete")
+}
+
+func dumpOrNil(l interface{}, err error) string {
+	if err != nil {
+		return ""
+	}
+	return hx.Dump(l)
+}
+
 func prepare(e hx.Entry, b *simbmc.BMC, draw int) *hx.Call {
 	var call *hx.Call
 	g := rapid.Custom(func(t *rapid.T) int { call = e.Prepare(t, b); return 0 })
@@ -483,6 +624,6 @@ func TestSessionPairs(t *testing.T) {
 }
 
 func TestCoverage(t *testing.T) {
-	ev.RequireLabels(t, 1, "pairs-complete", "command-reuse:later-reply-without-body", "session-pair:second-open-established", "session-pair:both-discover", "layer-branch-differs:GetDeviceIDRsp", "layer-branch-differs:GetSessionInfoRsp", "layer-branch-differs:GetChassisStatusRsp",
+	ev.RequireLabels(t, 1, "pairs-complete", "method-pairs-complete", "command-reuse:later-reply-without-body", "session-pair:second-open-established", "session-pair:both-discover", "layer-branch-differs:GetDeviceIDRsp", "layer-branch-differs:GetSessionInfoRsp", "layer-branch-differs:GetChassisStatusRsp",
 		"layer-branch-differs:OpenSessionRsp", "layer-branch-differs:RAKPMessage2", "layer-branch-differs:GetDCMISensorInfoRsp", "layer-branch-differs:DCMICaps", "wrapper:V1Session", "wrapper:V2Session", "wrapper:Message", "wrapper-after-rejected:V2Session")
 }
